@@ -34,7 +34,11 @@ def check_cache(
 
     from hypergraph.cache import compute_cache_key
 
-    cache_key = compute_cache_key(node.definition_hash, inputs)
+    # Key on the underlying parameter names and include the output names, so
+    # that nodes sharing one function but wired differently (renamed inputs,
+    # different output names) never serve each other's entries.
+    identity = f"{node.definition_hash}:{node.outputs!r}"
+    cache_key = compute_cache_key(identity, node.map_inputs_to_params(inputs))
     if not cache_key:
         return "", None
 
